@@ -540,7 +540,21 @@ func (s *Session) nativeBinaryOpt(pkg string, race bool) (string, string) {
 }
 
 // replayNative runs the harness natively with the counterexample and reports whether the same failure occurs.
+// replayNative runs the counterexample natively; a run that does not show the failure is repeated a few times,
+// because the native outcome can depend on things the solver's model does not fix (Go's randomised map iteration
+// order, goroutine timing).
 func (s *Session) replayNative(spec HarnessSpec, file string, kind, msg string) (string, string) {
+	var res, detail string
+	for attempt := 0; attempt < 5; attempt++ {
+		res, detail = s.replayNativeOnce(spec, file, kind, msg)
+		if res != "not-reproduced" {
+			break
+		}
+	}
+	return res, detail
+}
+
+func (s *Session) replayNativeOnce(spec HarnessSpec, file string, kind, msg string) (string, string) {
 	// lock-discipline counterexamples of harnesses marked "race" are confirmed by the race detector
 	race := spec.Race && strings.Contains(msg, "while holding its mutex")
 	bin, berr := s.nativeBinaryOpt(spec.Pkg, race)
